@@ -35,7 +35,7 @@ func runC01(l *core.Ledger) {
 	l.Rule("C01-R4", "exactly one quorum-function call site per loop, on the loop's own goroutine, preceded in each iteration by a reply-map write; the loop function is entered from one site")
 	l.Rule("C01-R5", "no quorum-function call is reachable after the function reported a quorum")
 	l.Rule("C01-R6", "every response handed to a caller carries c.node.ID() of the producing channel; only the stream reader attaches a message, taken from the message just received and routed under its own MessageID")
-	l.Rule("C01-R8", "reply routing discipline (C05-M1 unique ids per invocation from one atomic counter, M2 register-before-queue, M4 deliver-then-delete) re-run: a reply set can only hold replies to this call's own request")
+	l.Rule("C01-R8", "reply routing discipline (C05-M1 unique ids per invocation from one atomic counter, M2 register-before-queue, M4 deliver-then-delete, M6 reply channel made by this call; C07-E4/E6 a failed node's router is deleted) re-run: a reply set can only hold replies to this call's own request, and none from a node already reported as failed")
 	l.Rule("C01-R7", "generated quorum/async stubs and their templates: QuorumFunction closure returns c.qspec.<M>QF(req.(*In), r) with r filled by one range over replies as r[k] = v.(*Out); the stub returns res.(*CustomOut) of the raw call's result")
 
 	loops := findReplyLoops(l, r, "C01-R1")
@@ -52,9 +52,16 @@ func runC01(l *core.Ledger) {
 	// before queue, deliver-then-delete
 	eps := findEntryPoints(l, r, "C01-R8")
 	l.With(map[string]string{"C05-M1": "C01-R8"}, func() { c05M1(l, r, eps) })
+	// the reply channel belongs to this call alone (made by it, never shared or recycled)
+	l.With(map[string]string{"C05-M6": "C01-R8"}, func() { c05M6(l, r, eps) })
+	l.With(map[string]string{"C07-E4": "C01-R8"}, func() { c07E4(l, r) })
 	if rm := buildRouterModel(l, r, "C01-R8"); rm != nil {
 		l.With(map[string]string{"C05-M2": "C01-R8"}, func() { c05M2(l, r, rm) })
 		l.With(map[string]string{"C05-M4": "C01-R8"}, func() { checkDeliverDelete(l, r, rm, "C05-M4", false) })
+		// a node that was reported as failed must not be heard from again: the error
+		// delivery deletes the router (streaming or not), and a broken stream fails
+		// and forgets every pending call
+		l.With(map[string]string{"C07-E6": "C01-R8"}, func() { checkDeliverDelete(l, r, rm, "C07-E6", true) })
 	}
 }
 
